@@ -14,6 +14,7 @@ package main
 //	c17.process <dcs> <code> <text>    RpcErrorToNative, then tryToProcessErr on a client whose DC
 //	                                   table is defaultDCList overridden by <dcs> = id:SYM,… | "-"
 //	                                   (SYM ∈ A, B: loopback listeners)
+//	c17.ident / c17.callers            sequences of replies with every earlier error HELD (c17ident.go)
 //	c17.atoi    <text>                 strconv.Atoi(text)           (library model, not judged)
 //	c17.sprintf <format> <operand>     fmt.Sprintf(format, operand) (library model, not judged;
 //	                                   operand = int:<n> | str:<hex>; formats of the modelled subset)
